@@ -989,7 +989,7 @@ def run(ctx):
     cases += gen_exact(rng, 120 if quick else 1200)
     cases += gen_generic_matrix(rng, 30 if quick else 300)
     cases += gen_tri(rng, 12 if quick else 100)
-    cases += gen_e2e(rng, quick, 91 if quick else 650, 24 if quick else 60)
+    cases += gen_e2e(rng, quick, 91 if quick else 450, 24 if quick else 48)
     n = evaluate_all(ctx, exe, mexe, tab, cases, stats)
     ctx.note("wall: cases %.0fs (extracted model %.0fs, harness %.0fs)" % (ctx.elapsed() - t_ext, TIMES["model"], TIMES["impl"]))
     if tab is not None:
